@@ -568,7 +568,7 @@ func init() {
 		}},
 		Mutants: []Mutant{
 			{Name: "declvar-rollback-removed", File: "fast/declaration.go", Old: "\t\t} else if oldbind != nil {\n\t\t\tc.Binds[name] = oldbind\n\t\t} else {\n\t\t\tdelete(c.Binds, name)\n\t\t}\n\t}()\n\tbind := c.NewBind(name, VarBind, t)", New: "\t\t}\n\t\t_ = oldbind\n\t}()\n\tbind := c.NewBind(name, VarBind, t)"},
-			{Name: "declfunc-rollback-removed", File: "fast/function.go", Old: "\t\t} else if oldbind != nil {\n\t\t\tc.Binds[funcname] = oldbind\n\t\t} else {\n\t\t\tdelete(c.Binds, funcname)\n\t\t}", New: "\t\t}", Canary: true},
+			{Name: "declfunc-rollback-removed", File: "fast/function.go", Old: "\t\t} else if oldbind != nil {\n\t\t\tc.Binds[funcname] = oldbind\n\t\t} else {\n\t\t\tdelete(c.Binds, funcname)\n\t\t}", New: "\t\t}\n\t\t_ = oldbind", Canary: true},
 			{Name: "declconst-publishes-before-conversion", File: "fast/declaration.go", Old: "\tlit := Lit{Type: valueType, Value: value}\n\tif t == nil {\n\t\tt = lit.Type\n\t} else {\n\t\tvalue = lit.ConstTo(t)\n\t}\n\tbind := c.NewBind(name, ConstBind, t)\n", New: "\tlit := Lit{Type: valueType, Value: value}\n\tbind := c.NewBind(name, ConstBind, t)\n\tif t == nil {\n\t\tt = lit.Type\n\t} else {\n\t\tvalue = lit.ConstTo(t)\n\t}\n", Canary: true},
 			{Name: "declfunc-flag-never-cleared", File: "fast/function.go", Old: "\tc.Append(stmt, funcdecl.Pos())\n\tpanicking = false\n", New: "\tc.Append(stmt, funcdecl.Pos())\n"},
 		},
